@@ -316,6 +316,9 @@ func (p *sparser) primary() SExpr {
 		case "nil":
 			return &SNil{}
 		case "old":
+			if !p.isOp("(") {
+				return &SIdent{t.s} // a parameter that happens to be called old (xsync.Map.CompareAndSwap)
+			}
 			p.expect("(")
 			e := p.expr(0)
 			p.expect(")")
